@@ -16,6 +16,8 @@ RULE = ('k in 1..4 operands with disjoint ids on the concatenation axis (plus a 
         'metadata on neither/either/both axes per operand (entries may be empty, the same other-axis id may carry '
         'different metadata in different operands), every operand built from a layout recipe; calls: '
         't.concat(list), t.concat(table), t.concat(list) with the default axis, biom.concat(list); '
+        'for list operands the call is repeated with the same list object (same receiver, and a second receiver '
+        'carrying the block under fresh ids) and the caller\'s list must be left unchanged; '
         'non-trivial = at least two operands or a refused case; distinct by case hash')
 TRUSTED = ['hand-written model coq/Model/Concat.v tied to biom/table.py:3516-3676 by this correspondence run',
            'harness.tables.Coder: id codes respect python string order (sorted() = sort by code)',
@@ -104,7 +106,20 @@ def gen_case(rng, k=None, pattern=None, axis=None, call=None, clash=None):
         call = 'method_list'
     if call == 'method_default_axis' and axis != 'sample':
         call = 'module'
-    return {'specs': specs, 'axis': axis, 'call': call, 'pattern': pattern}
+    case = {'specs': specs, 'axis': axis, 'call': call, 'pattern': pattern}
+    if call in ('method_list', 'method_default_axis'):
+        case['other'] = other_receiver(specs[0], axis, rng)
+    return case
+
+
+def other_receiver(spec, axis, rng=None):
+    """a second receiver for the same list object: the receiver's block under fresh ids on the axis"""
+    b = copy.deepcopy(spec)
+    key = 'oids' if axis == 'observation' else 'sids'
+    b[key] = ['zz' + i for i in b[key]]
+    if rng is not None:
+        b['type'] = rng.choice(T.TYPES)
+    return b
 
 
 def gen(rng, tier):
@@ -122,49 +137,86 @@ def gen(rng, tier):
 
 
 # ---------------------------------------------------------------- implementation
+def _status(f):
+    try:
+        return ['ok', T.norm_snap(T.snapshot(f()))]
+    except Exception as e:
+        return ['err', T.err_code(e)]
+
+
 def run_impl(case):
+    """the call under test; then, for list operands, the same call again with the SAME list object and a
+    call with another receiver and that list object; the caller's list must stay what it was"""
     try:
         ts = [T.build(s) for s in case['specs']]
+        other = T.build(case['other']) if case.get('other') else None
     except Exception as e:
         return ['crash-build', type(e).__name__, str(e)[:200]]
     _INFO[id(case)] = [T.layout_info(t) for t in ts]
     axis, call = case['axis'], case['call']
-    try:
-        if call == 'method_list':
-            r = ts[0].concat(ts[1:], axis=axis)
-        elif call == 'method_single':
-            r = ts[0].concat(ts[1], axis=axis)
-        elif call == 'method_default_axis':
-            r = ts[0].concat(ts[1:])
-        else:
-            r = biom.concat(ts, axis=axis)
-    except Exception as e:
-        return ['err', T.err_code(e)]
-    return ['ok', T.norm_snap(T.snapshot(r))]
+    if call == 'method_single':
+        return [_status(lambda: ts[0].concat(ts[1], axis=axis)), {'repeat': None, 'other': None, 'list_unchanged': True}]
+    if call == 'module':
+        lst = list(ts)
+        before = [id(x) for x in lst]
+        main = _status(lambda: biom.concat(lst, axis=axis))
+        again = _status(lambda: biom.concat(lst, axis=axis))
+        return [main, {'repeat': again, 'other': None, 'list_unchanged': [id(x) for x in lst] == before}]
+    lst = ts[1:]
+    before = [id(x) for x in lst]
+    kw = {} if call == 'method_default_axis' else {'axis': axis}
+    main = _status(lambda: ts[0].concat(lst, **kw))
+    unchanged = [id(x) for x in lst] == before
+    again = _status(lambda: ts[0].concat(lst, **kw))
+    oth = _status(lambda: other.concat(lst, **kw)) if other is not None else None
+    return [main, {'repeat': again, 'other': oth, 'list_unchanged': unchanged and [id(x) for x in lst] == before}]
 
 
 # ---------------------------------------------------------------- wire
 def _coder(case):
-    return T.Coder(T.spec_universe(*case['specs']))
+    return T.Coder(T.spec_universe(*(case['specs'] + ([case['other']] if case.get('other') else []))))
 
 
 def encode(case):
     cd = _coder(case)
-    return [AXES.index(case['axis']), [cd.table(T.snapshot(T.build(s))) for s in case['specs']]]
+    return [AXES.index(case['axis']), [cd.table(T.snapshot(T.build(s))) for s in case['specs']],
+            [cd.table(T.snapshot(T.build(case['other'])))] if case.get('other') else []]
+
+
+def _dec(tree, cd):
+    if tree[0] == -1:
+        return ['err', tree[1]]
+    return ['ok', T.norm_snap(cd.untable(tree[1]))]
 
 
 def decode(tree, case):
-    if tree[0] == -1:
-        return ['err', tree[1]]
-    return ['ok', T.norm_snap(_coder(case).untable(tree[1]))]
+    cd = _coder(case)
+    main = _dec(tree[0], cd)
+    # the model is a function of the operands: repeating the call gives the same result and nothing is modified
+    rep = None if case['call'] == 'method_single' else main
+    return [main, {'repeat': rep, 'other': _dec(tree[1][0], cd) if tree[1] else None, 'list_unchanged': True}]
 
 
 # ---------------------------------------------------------------- oracle (the property text)
 def oracle(case, obs):
-    fails = []
-    if obs[0].startswith('crash'):
+    if isinstance(obs[0], str) and obs[0].startswith('crash'):
         return ['could not build the operands: %s' % obs]
-    specs = [T.spec_content(s) for s in case['specs']]
+    main, extra = obs
+    fails = oracle_one(case['specs'], case['axis'], main)
+    if not extra['list_unchanged']:
+        fails.append("the caller's list of operands was modified by concat")
+    if extra['repeat'] is not None and extra['repeat'] != main:
+        fails.append('the same call repeated with the same list object gives a different result: %s' % (extra['repeat'][:1],))
+    if extra['other'] is not None:
+        fails += ['with another receiver and the same list object: ' + f
+                  for f in oracle_one([case['other']] + case['specs'][1:], case['axis'], extra['other'])]
+    return fails[:4]
+
+
+def oracle_one(specs_in, axis, obs):
+    fails = []
+    case = {'axis': axis}
+    specs = [T.spec_content(s) for s in specs_in]
     ax = 'oids' if case['axis'] == 'observation' else 'sids'
     ot = 'sids' if case['axis'] == 'observation' else 'oids'
     axmd = 'omd' if case['axis'] == 'observation' else 'smd'
@@ -243,6 +295,8 @@ def shrink(case):
             del c['specs'][i]
             if c['call'] == 'method_single' and len(c['specs']) != 2:
                 c['call'] = 'method_list'
+            if i == 0 and c.get('other'):
+                c['other'] = other_receiver(c['specs'][0], c['axis'])
             yield c
     for i, s in enumerate(specs):
         if s['layout'] != ['dense']:
